@@ -259,7 +259,7 @@ def boundary_budgets(ctx, focus, p, r, real, cases, descr):
             if r2['status'] != 0 or len(got) < want_n:
                 ctx.fail('failed_within_budget', f'max_step={p2.max_step}: {want_n} derivation(s) are completed within this step budget (the unlimited run takes goal {which + 1} '
                          f'from the agenda at pop {fin_at[which]}), but the search reports status {r2["status"]} with {len(got)} parse(s)', pj)
-            elif got[0] != first:
+            elif got[0] != first and p.pen8 >= 0:      # (with a unary bonus later goals may score higher: priorities are monotone only for a penalty >= 0)
                 ctx.fail('budget_changes_first_parse', f'max_step={p2.max_step}: first parse scores {got[0] / A.SCALE}, without a budget {first / A.SCALE}', pj)
 
 
